@@ -396,7 +396,10 @@ func processFetchForMessage(deps ServerDeps, conn net.Conn, messageID, uid int64
 				prefixLen = len("BODY.PEEK[HEADER.FIELDS (")
 			}
 
-			fieldsStr := items[start+prefixLen:]
+			fieldsStr := ""
+			if start+prefixLen <= len(items) { // "BODY[HEADER.FIELDS" may end the item string
+				fieldsStr = items[start+prefixLen:]
+			}
 			closeParen := strings.Index(fieldsStr, ")")
 			if closeParen != -1 {
 				fieldsStr = fieldsStr[:closeParen]
